@@ -4,8 +4,7 @@ CONSTANTS
   NUp = 1
   NDown = 1
   MaxFaults = 2
-  AsIs_D15 = FALSE
 SPECIFICATION FairSpec
-INVARIANTS TypeOK PrefixDelivered OnlyOwnSegments OneAcceptPerSession OneCurrent DeadOnlyByD15
+INVARIANTS TypeOK PrefixDelivered OnlyOwnSegments OneAcceptPerSession OneCurrent NeverDead
 PROPERTIES EventuallyDelivered
 CHECK_DEADLOCK FALSE
